@@ -37,6 +37,9 @@ def cases(ctx):
             pa.append(ipgen.rand_net4(rng, rng.choice([8, 16, 24, 32])))
         if rng.random() < 0.15:
             pa = list(ipgen.RFC1918)
+        elif rng.random() < 0.12:
+            # an outer block with several disjoint inner blocks: every address of the outer block stays, wherever it lies
+            pa = ipgen.nested_family(rng)
         if rng.random() < 0.12:
             # a dual-stack list: the IPv6 block must not disturb what is done for the IPv4 blocks after it
             pa.insert(rng.randrange(len(pa)), rng.choice(["2001:db8::/32", "fd00::/8", "2001:db8:aa::/48", "::/0"]))
@@ -46,7 +49,7 @@ def cases(ctx):
         yield {"kind": "collide", "cfg": cfg, "aseed": rng.getrandbits(32)}
     for i in range(ctx.per_shard(ctx.pick(2, 60))):
         yield {"kind": "private_cli", "lseed": rng.getrandbits(32), "salt": "p%d" % rng.getrandbits(30),
-               "extra": rng.choice([None, "11.11.0.0/16", "100.0.0.0/8", "10.1.0.0/16"]), "B": rng.choice([0, 8, 8])}
+               "extra": rng.choice([None, "11.11.0.0/16", "100.0.0.0/8", "10.1.0.0/16", "10.1.0.0/16,10.2.0.0/16", "192.168.7.0/24,10.200.0.0/16,10.3.0.0/16"]), "B": rng.choice([0, 8, 8])}
 
 
 def check_case(ctx, case):
@@ -256,7 +259,7 @@ def _collide(ctx, case):
 def _private_cli(ctx, case):
     """--preserve-private-addresses through the real command line: private tokens untouched."""
     rng = random.Random(case["lseed"])
-    pa = list(ipgen.RFC1918) + ([case["extra"]] if case["extra"] else [])
+    pa = list(ipgen.RFC1918) + (case["extra"].split(",") if case["extra"] else [])
     fcfg = {"salt": case["salt"], "pp": None, "pa": pa, "B4": case["B"], "B6": case["B"]}
     lns = gen_lines(rng, fcfg, 12)
     text = "".join(lines.text_of(s) + "\n" for s in lns)
